@@ -40,6 +40,9 @@ mixed creator_file(string file) {
   if (sscanf(file, "%s#%d", base, n) != 2) base = file;
   a = (cfmap && cfmap[base]) ? cfmap[base] : "Root";
   if (uid_log) rec("CF " + file + " ans=" + a);
+#ifdef VALID_OBJECT_UIDS
+  if (find_object(file)) rec("CFU " + file + " uid=" + (getuid(find_object(file)) ? getuid(find_object(file)) : "0"));
+#endif
   if (a == "0") return 0;
   if (a == "A") return ({ "junk" });
   if (a == "E") error("creator_file bomb\n");
@@ -93,6 +96,9 @@ void load_policy() { string t; t = read_file("/policy"); if (t) policy = explode
   t = read_file("/vspolicy"); if (t) { string l, k, v; foreach (l in explode(t, "\n")) if (sscanf(l, "%s %s", k, v) == 2) set_vs(k, v); } }
 #ifdef VALID_OBJECT_DENY
 int valid_object(object ob) { if (file_name(ob) == VALID_OBJECT_DENY) { rec("VETO " + file_name(ob)); return 0; } return 1; }
+#elif defined(VALID_OBJECT_UIDS)
+// a master that looks at the uids of the object it is asked about: at that moment the driver has not given it any yet
+int valid_object(object ob) { rec("VOU " + file_name(ob) + " uid=" + (getuid(ob) ? getuid(ob) : "0") + " euid=" + (geteuid(ob) ? geteuid(ob) : "0")); return 1; }
 #else
 int valid_object(object ob) { return 1; }
 #endif
